@@ -427,3 +427,57 @@ def c19(pid, tier):
 @register("C22")
 def c22(pid, tier):
     return run_pool_check(pid, tier)
+
+
+# ----------------------------------------------------------------------------- C23: publication routine from its MIR over a filesystem model
+@register("C23")
+def c23(pid, tier):
+    import csxlib
+    import fscheck
+    import mirpool
+    from registry import finish
+    t0 = time.time()
+    csxlib.build_emitter()
+    try:
+        ex, eg, gpaths = fscheck.load()
+        qs = fscheck.obligations(ex, eg, gpaths)
+    except mirpool.Unsupported as e:
+        print(f"INCONCLUSIVE: the MIR of the publish routine uses a construct the executor does not model: {e}")
+        return 2
+    print(f"[{pid}] commit_staging_dir_impl: {len(ex.paths)} MIR paths, generate_all_circuit_binaries: {len(gpaths)} paths; effect-free unmodelled calls: {sorted(ex.unknown_calls | eg.unknown_calls)}", flush=True)
+    nval, vfails = fscheck.validate_translation(ex, csxlib.EMIT_BIN)
+    print(f"[{pid}] translator validation: {nval}/{len(fscheck.BATTERY)} real fault schedules reproduced by the MIR model", flush=True)
+    inconcl = ["translator validation: " + f for f in vfails]
+    replays = {}
+    for qi, q in enumerate(qs):
+        print(f"  {q.name[:160]:160s} {q.verdict:10s} {q.secs:6.2f}s", flush=True)
+        if q.verdict != "CEX":
+            continue
+        rep = (False, "", "no replayable instance (generation-level clause or panic path)")
+        for k, (S, label, m) in enumerate(q.cex[:8]):
+            if S not in [p[0] for p in ex.paths]:
+                rep = fscheck.replay_generation(pid, f"{qi}.{k}", eg, S, m, csxlib.EMIT_BIN)
+                if rep[0]:
+                    break
+                continue
+            lab, snap_state = label if isinstance(label, tuple) else (label, None)
+            rep = fscheck.replay(pid, f"{qi}.{k}", ex, S, lab, m, csxlib.EMIT_BIN, snap_state)
+            if rep[0]:
+                break
+        replays[q.name] = (rep[0], rep[1], q.name + "; " + rep[2])
+
+    class Sess:
+        results = qs
+    rc, known = finish(pid, qs, replays, inconcl)
+    csxlib.write_evidence(pid, tier, t0, [Sess], ["qp_wormhole_circuit_builder::commit_staging_dir_impl (MIR of /repo's current source, every basic block)",
+                                                  "qp_wormhole_circuit_builder::generate_all_circuit_binaries (control flow around staging / generation / commit; generation itself stubbed)"],
+                          {"faults": "EVERY rename and remove_dir_all may fail (symbolic outcome per call); a failing remove_dir_all may leave the directory untouched or partially deleted",
+                           "crash_points": "after every filesystem operation of every path (snapshot of the model filesystem) and at return",
+                           "filesystem": "three locations (staging, output, moved-aside sibling), five content codes; rename is atomic and succeeds only onto an absent destination",
+                           "outside": "create_staging_dir's name search, the artifact generators, fsync/durability, concurrent builders, a moved-aside name that already exists"},
+                          ["filesystem model and stubs listed in native/mirfs.py", "the staged set is complete when commit is called (config file written last)",
+                           "nightly rustc's MIR (-Zunpretty=mir) is the program that is analysed", "z3 verdicts"],
+                          extra={"states": len(ex.paths) + len(gpaths), "transitions": sum(1 for S, _, _ in ex.paths for e in S.events if e[0] == "snap")},
+                          traces_validated=nval, violations=1 if rc == 1 else 0, known=known)
+    print(f"[{pid}] {sum(1 for q in qs if q.verdict in ('HOLDS', 'REACHABLE'))}/{len(qs)} queries discharged, wall {time.time() - t0:.1f}s, exit {rc}")
+    return rc
